@@ -111,3 +111,10 @@ table_harness!(verndx, VersionIndex, Class::ELF64, 2);
 table_harness!(dyn32, Dyn, Class::ELF32, 8);
 iter_harness!(rel32, Rel, Class::ELF32, 8);
 iter_harness!(rela32, Rela, Class::ELF32, 12);
+
+/// one 64-byte ELF64 section header + ragged tail (the full k=2 harness for this entry type is in the thorough tier)
+#[kani::proof]
+#[kani::unwind(4)]
+pub fn shdr64_k1() {
+    table_coherence::<SectionHeader, 127>(Class::ELF64, 64, 1);
+}
